@@ -135,6 +135,44 @@ func checkStoreCallsUnderW(r *Reporter, p *Prog, pkg string, fd *ast.FuncDecl) {
 			bad = append(bad, fmt.Sprintf("%s: store call kv.%s without the write lock (held %s)", p.posStr(c.Pos()), se.Sel.Name, held))
 		}
 	})
+	// the whole read-modify-write is one section: the caller's function (computeFunc) and every
+	// helper method of the receiver that takes part in it run under the same write lock
+	recv := recvObj(info, fd)
+	params := map[types.Object]bool{}
+	for _, o := range paramObjs(info, fd) {
+		if o != nil {
+			if _, isFunc := o.Type().Underlying().(*types.Signature); isFunc {
+				params[o] = true
+			}
+		}
+	}
+	seen2 := map[ast.Node]bool{}
+	AnalyzeLocks(fd.Body, LockSet{}, &FlowOpts{Info: info}, func(nd ast.Node, stack []ast.Node, held LockSet) {
+		c, ok := nd.(*ast.CallExpr)
+		if !ok || seen2[c] || recv == nil {
+			return
+		}
+		what := ""
+		switch f := ast.Unparen(c.Fun).(type) {
+		case *ast.Ident:
+			if params[info.Uses[f]] {
+				what = "the caller's function " + f.Name
+			}
+		case *ast.SelectorExpr:
+			if id, isId := ast.Unparen(f.X).(*ast.Ident); isId && info.Uses[id] == recv {
+				if sel := info.Selections[f]; sel != nil && sel.Kind() == types.MethodVal {
+					what = "the receiver's method " + f.Sel.Name
+				}
+			}
+		}
+		if what == "" {
+			return
+		}
+		seen2[c] = true
+		if held[fmt.Sprintf("%s@%d.mutex", recv.Name(), recv.Pos())] < ModeW {
+			bad = append(bad, fmt.Sprintf("%s: %s runs outside the write-locked section (held %s): the read of the current value, the computation and the store no longer form one exclusive section, concurrent updates are lost", p.posStr(c.Pos()), what, held))
+		}
+	})
 	if n == 0 {
 		r.Fail("lock/store-under-W", fkey, p.posStr(fd.Pos()), "no store call found (row vacuous)")
 	} else if len(bad) > 0 {
